@@ -119,6 +119,8 @@ def run_app(sc):
             s = VSock(w, [(e[0], e[1]) + ((bytes.fromhex(e[2]),) if len(e) > 2 else ()) for e in spec.get("events", [])],
                       status=spec.get("status"), tls_pending=bool(spec.get("tls")), pong_latency=spec.get("pong_latency"))
             s.spec = spec
+            if spec.get("glue"):
+                s.glue = bytes.fromhex(spec["glue"])
             if spec.get("send_stalls_from") is not None:
                 s.send_stalls_from = spec["send_stalls_from"]
             if spec.get("short_body"):
@@ -183,6 +185,14 @@ def run_app(sc):
             cbs = {n: make_cb(n, 0) for n in ("on_open", "on_reconnect", "on_message", "on_data", "on_error", "on_close",
                                               "on_ping", "on_pong", "on_cont_message")}
             extra = {}
+            if sc.get("header_callable"):
+                # the documented callable form of the header option: called just before every connection attempt
+                calls = []
+
+                def header_fn():
+                    calls.append(1)
+                    return [f"X-Attempt: {len(calls)}"]
+                extra["header"] = header_fn
             if sc.get("prepared"):
                 # the caller hands over an already connected (for wss: already TLS-wrapped) socket through the socket= option
                 spec0 = pending.pop(0)
@@ -237,6 +247,7 @@ def run_app(sc):
     result["threads_alive_at_end"] = [n for n in w.order if not w.ctl[n]["done"]]
     result["max_live_ping_threads"] = max([sum(1 for n in w.order if n.startswith("ping") and not w.ctl[n]["done"])] +
                                           [0])
+    result["requests"] = [bytes(s.request).decode("latin-1") for s in socks]
     result["app_sock_none"] = app.sock is None
     result["spun"] = any(getattr(s, "spun", False) for s in socks)
     result["end_time"] = round(w.now, 6)
